@@ -20,6 +20,11 @@ class LibraryRaised(Exception):
         self.item = item
 
 
+# exception types that judging code raises on malformed VALUES (as opposed to bugs of the harness itself)
+INTERPRETATION_ERRORS = ("ValueError", "IndexError", "TypeError", "KeyError", "AttributeError", "ZeroDivisionError", "FloatingPointError",
+                         "OverflowError", "AssertionError", "LinAlgError")
+
+
 class JudgeError(Exception):
     """the harness' own judging code raised while interpreting what the library returned (shape it cannot
     broadcast, NaN that the oracle SVD rejects, a missing key in a diagnostics dict, ...).  On the unchanged
@@ -54,7 +59,7 @@ def _call(args):
             return _F(args)
     except Exception:
         et, ev, tb = sys.exc_info()
-        return ("__exc__", "".join(traceback.format_exception(et, ev, tb)), innermost_in_repo(tb))
+        return ("__exc__", "".join(traceback.format_exception(et, ev, tb)), innermost_in_repo(tb), et.__name__)
 
 
 def pmap(fn, items, procs=None, chunk=None):
@@ -73,8 +78,10 @@ def pmap(fn, items, procs=None, chunk=None):
             pool.close()
             pool.join()
     for a, r in zip(items, out):
-        if isinstance(r, tuple) and len(r) == 3 and r[0] == "__exc__":
+        if isinstance(r, tuple) and len(r) == 4 and r[0] == "__exc__":
             if r[2]:
                 raise LibraryRaised(r[1], repr(a)[:2000])
-            raise JudgeError(r[1], repr(a)[:2000])
+            if r[3] in INTERPRETATION_ERRORS:
+                raise JudgeError(r[1], repr(a)[:2000])
+            raise RuntimeError("harness exception in worker:\n" + r[1])      # NameError, ImportError, ...: a bug of the harness itself
     return out
